@@ -14,6 +14,49 @@ pub fn run(v: &serde_json::Value, rep: &mut Report) -> Result<(), String> {
     let o = build_order(&jo)?;
     let new_qty = v.get("new_qty").and_then(|x| x.as_u64()).ok_or("missing new_qty")?;
     let match_qty = v.get("match_qty").and_then(|x| x.as_u64()).ok_or("missing match_qty")?;
+    run_one(price, o, new_qty, match_qty, rep)
+}
+
+/// thorough tier: the forced schedule over a grid of order kinds, amendment targets and racing match sizes
+/// (bounded exploration of ONE schedule shape - never counted as proof)
+#[cfg(pricelevel_verif)]
+pub fn sweep(v: &serde_json::Value, rep: &mut Report) -> Result<(), String> {
+    let prop = v.get("property").and_then(|x| x.as_str()).unwrap_or("C03").to_string();
+    let kinds = vec![
+        serde_json::json!({"type":"Standard","vis":6}), serde_json::json!({"type":"PostOnly","vis":6}),
+        serde_json::json!({"type":"Iceberg","vis":5,"hid":10}), serde_json::json!({"type":"Iceberg","vis":3,"hid":2}), serde_json::json!({"type":"Iceberg","vis":0,"hid":4}),
+        serde_json::json!({"type":"Reserve","vis":5,"hid":10,"threshold":0,"amount":5,"auto":true}), serde_json::json!({"type":"Reserve","vis":5,"hid":10,"threshold":3,"auto":true}),
+        serde_json::json!({"type":"Reserve","vis":4,"hid":6,"threshold":0,"amount":0,"auto":true}), serde_json::json!({"type":"Reserve","vis":4,"hid":6,"threshold":2,"auto":false}),
+        serde_json::json!({"type":"MarketToLimit","vis":6}), serde_json::json!({"type":"TrailingStop","vis":6}), serde_json::json!({"type":"PeggedOrder","vis":6}),
+    ];
+    let mut runs = 0u64;
+    for k in &kinds {
+        for new_qty in [0u64, 1, 3, 5, 6, 9, 20] {
+            for match_qty in [0u64, 1, 3, 5, 6, 7, 11, 16, 100] {
+                let mut j = k.clone();
+                j["id"] = serde_json::json!(1); j["side"] = serde_json::json!("Sell"); j["ts"] = serde_json::json!(1); j["price"] = serde_json::json!(100);
+                let jo: JOrder = serde_json::from_value(j.clone()).map_err(|e| e.to_string())?;
+                let o = build_order(&jo)?;
+                let mut r = Report::default();
+                *crate::CURRENT.lock().unwrap() = Some(serde_json::json!({"kind":"amend_race","price":100,"order":j,"new_qty":new_qty,"match_qty":match_qty}));
+                run_one(100, o, new_qty, match_qty, &mut r)?;
+                runs += 1;
+                let hits: Vec<&String> = r.lines.iter().filter(|l| l.contains(&format!("property={prop} "))).collect();
+                if !hits.is_empty() {
+                    for h in hits.iter().take(3) { rep.lines.push((*h).clone()); }
+                    rep.lines.push(format!("REPLAY-FOUND {}", crate::CURRENT.lock().unwrap().clone().unwrap()));
+                    return Ok(());
+                }
+                *crate::CURRENT.lock().unwrap() = None;
+            }
+        }
+    }
+    eprintln!("amend_race_sweep: {runs} forced schedules (12 order kinds x 7 amendment targets x 9 racing match sizes), nothing found for {prop}");
+    Ok(())
+}
+
+#[cfg(pricelevel_verif)]
+fn run_one(price: u64, o: pricelevel::OrderType<()>, new_qty: u64, match_qty: u64, rep: &mut Report) -> Result<(), String> {
     let level = Arc::new(PriceLevel::new(price));
     level.add_order(o);
     let supplied = o.visible_quantity() as u128 + o.hidden_quantity() as u128 + new_qty as u128;
@@ -58,6 +101,9 @@ pub fn run(v: &serde_json::Value, rep: &mut Report) -> Result<(), String> {
     }
     Ok(())
 }
+
+#[cfg(not(pricelevel_verif))]
+pub fn sweep(_v: &serde_json::Value, _rep: &mut Report) -> Result<(), String> { Err("replay was built without --cfg pricelevel_verif".into()) }
 
 #[cfg(not(pricelevel_verif))]
 pub fn run(_v: &serde_json::Value, _rep: &mut Report) -> Result<(), String> {
